@@ -60,7 +60,8 @@ class Conv:
             if q["pid"] is None or (strict and q.get("timeout") is not None): return None
             return "(QWaitPart %d%%nat)" % q["pid"]
         if k == "pay":
-            if q["other"] != EXPECTED_OTHER or q["maxfee"] is None or q["maxdelay"] is None or q["retry"] is None or q["inv"] is None: return None
+            expected = "None|None|None|None|None|None|None" if self.t.get("cfg", {}).get("xpay") else EXPECTED_OTHER   # the xpay shape carries no riskfactor
+            if q["other"] != expected or q["maxfee"] is None or q["maxdelay"] is None or q["retry"] is None or q["inv"] is None: return None
             return "(QPay %s %s %s %d %d)" % (self.blob(q["inv"]), coq_opt(q["amount"], str), q["maxfee"], q["maxdelay"], q["retry"])
         return None
 
